@@ -11,7 +11,7 @@ import numpy as np
 
 from ..simkit import gen, refmodel
 from ..simkit.backends import BackendFault, classes
-from ..simkit.core import call, judge
+from ..simkit.core import call, judge, clear_library_caches
 
 PID = "C01"
 FAMILIES = ["all", "none", "gateop", "arity", "names", "parity", "nongate"]
@@ -67,7 +67,7 @@ class World:
     ]
     PROBES_EXPECTED = ["multi-segment-split", "non-adjacent-indices", "descending-indices", "concat", "append-op",
                        "idle-qubits", "initial-state", "peer-fault", "after-peer-fault", "phase-op", "wrapper-gate",
-                       "custom-gate", "empty-circuit", "unitary", "stepwise", "arity>=3", "rejected-request"]
+                       "custom-gate", "empty-circuit", "unitary", "stepwise", "arity>=3", "rejected-request", "inplace-backend"]
 
     # ------------------------------------------------------------ generation
     def gen_plan(self, seed, tier):
@@ -83,7 +83,7 @@ class World:
                 arg = r.sample(sorted(gen.BUILTIN), r.randint(3, 15)) + r.sample(["Control", "Dagger", "MyRot"], r.randint(0, 2))
             elif fam == "parity":
                 arg = r.choice([0, 1])
-            sims.append({"kind": "split", "family": fam, "arg": arg, "real_apply": r.random() < 0.5})
+            sims.append({"kind": "split", "family": fam, "arg": arg, "real_apply": r.random() < 0.5, "inplace": r.random() < 0.3})
         cfg = {"n": n, "sims": sims, "faults": r.choice(["none", "none", "low", "medium"]), "clients": r.randint(1, 3),
                "wrappers": r.choice([0.0, 0.3, 0.6]), "phase_ops": r.choice([0.0, 0.15, 0.3]),
                "exclude": [] if r.random() < 0.5 else ["U3"], "cache_clear": r.choice([0, 0.2])}
@@ -142,15 +142,15 @@ class World:
         from orquestra.quantum.runners.symbolic_simulator import SymbolicSimulator
 
         _, SplitSim, _ = classes()
-        wfmod._get_ordering.cache_clear()
-        umod.bitstring_to_tuple.cache_clear()
-        umod.tuple_to_bitstring.cache_clear()
+        clear_library_caches()
+        clear_library_caches()
         sims = []
         for s in plan["config"]["sims"]:
             if s["kind"] == "symbolic":
                 sims.append(SymbolicSimulator())
             else:
                 sims.append(SplitSim(s["family"], s["arg"], s["real_apply"]))
+                sims[-1].inplace = bool(s.get("inplace"))
         return {"sims": sims, "pool": [], "evals": 0, "after_fault": set(), "interesting": False}
 
     def cleanup(self, st):
@@ -297,7 +297,7 @@ class World:
 
     def _do_clear(self, ctx, st, step, a):
         from orquestra.quantum import wavefunction as wfmod
-        wfmod._get_ordering.cache_clear()
+        clear_library_caches()
         ctx.log("clear", "ok")
 
     def _do_reject(self, ctx, st, step, a):
@@ -329,6 +329,9 @@ class World:
         mark = len(sim.native_calls) if is_split else 0
         if is_split:
             sim.arm(fault["at"] if fault else None)
+            sim.inplace_ok = init is None
+            if sim.inplace and init is None:
+                ctx.probe("inplace-backend")
         init_copy = None if init is None else init.copy()
         ok, res = call(sim.get_wavefunction, ent["c"], init)
         ctx.called("get_wavefunction:" + type(sim).__name__)
